@@ -50,45 +50,6 @@ pub(crate) fn k3(_n: &U192) -> u8 {
 pub(crate) fn k4(_n: &U192) -> u8 {
     4
 }
-pub(crate) fn k5(_n: &U192) -> u8 {
-    5
-}
-pub(crate) fn k6(_n: &U192) -> u8 {
-    6
-}
-pub(crate) fn k7(_n: &U192) -> u8 {
-    7
-}
-pub(crate) fn k8(_n: &U192) -> u8 {
-    8
-}
-pub(crate) fn k9(_n: &U192) -> u8 {
-    9
-}
-pub(crate) fn k10(_n: &U192) -> u8 {
-    10
-}
-pub(crate) fn k11(_n: &U192) -> u8 {
-    11
-}
-pub(crate) fn k12(_n: &U192) -> u8 {
-    12
-}
-pub(crate) fn k13(_n: &U192) -> u8 {
-    13
-}
-pub(crate) fn k14(_n: &U192) -> u8 {
-    14
-}
-pub(crate) fn k15(_n: &U192) -> u8 {
-    15
-}
-pub(crate) fn k16(_n: &U192) -> u8 {
-    16
-}
-pub(crate) fn k17(_n: &U192) -> u8 {
-    17
-}
 pub(crate) fn k18(_n: &U192) -> u8 {
     18
 }
@@ -467,186 +428,4 @@ fn c28_convert_k03() {
 #[kani::unwind(7)]
 fn c28_convert_k04() {
     convert(4, THREE, false);
-}
-
-//@ prop=C28 tier=experimental kind=hold
-//@ enc=<PriceFeedPrice as FromChainlinkReport>::from_chainlink_report, ruint U192 cmp / pow(10, 5)
-//@ bound=divisor exponent 5: ask in (u128::MAX*10^4, u128::MAX*10^5], bid/price any 192-bit values; results floor(x / 10^5) exactly; unwind 7
-//@ stubs=find_divisor_decimals constant 5 on its interval; ruint::algorithms::div::div specification; Report::verif_new hook
-//@ args=--cbmc-args,--unwindset,memcmp.0:26
-//@ timeout=1800
-#[kani::proof]
-#[kani::stub(gmsol_utils::price::find_divisor_decimals, k5)]
-#[kani::stub(ruint::algorithms::div::div, div_spec)]
-#[kani::unwind(7)]
-fn c28_convert_k05() {
-    convert(5, THREE, false);
-}
-
-//@ prop=C28 tier=experimental kind=hold
-//@ enc=<PriceFeedPrice as FromChainlinkReport>::from_chainlink_report, ruint U192 cmp / pow(10, 6)
-//@ bound=divisor exponent 6: ask in (u128::MAX*10^5, u128::MAX*10^6], bid/price any 192-bit values; results floor(x / 10^6) exactly; unwind 7
-//@ stubs=find_divisor_decimals constant 6 on its interval; ruint::algorithms::div::div specification; Report::verif_new hook
-//@ args=--cbmc-args,--unwindset,memcmp.0:26
-//@ timeout=1800
-#[kani::proof]
-#[kani::stub(gmsol_utils::price::find_divisor_decimals, k6)]
-#[kani::stub(ruint::algorithms::div::div, div_spec)]
-#[kani::unwind(7)]
-fn c28_convert_k06() {
-    convert(6, THREE, false);
-}
-
-//@ prop=C28 tier=experimental kind=hold
-//@ enc=<PriceFeedPrice as FromChainlinkReport>::from_chainlink_report, ruint U192 cmp / pow(10, 7)
-//@ bound=divisor exponent 7: ask in (u128::MAX*10^6, u128::MAX*10^7], bid/price any 192-bit values; results floor(x / 10^7) exactly; unwind 7
-//@ stubs=find_divisor_decimals constant 7 on its interval; ruint::algorithms::div::div specification; Report::verif_new hook
-//@ args=--cbmc-args,--unwindset,memcmp.0:26
-//@ timeout=1800
-#[kani::proof]
-#[kani::stub(gmsol_utils::price::find_divisor_decimals, k7)]
-#[kani::stub(ruint::algorithms::div::div, div_spec)]
-#[kani::unwind(7)]
-fn c28_convert_k07() {
-    convert(7, THREE, false);
-}
-
-//@ prop=C28 tier=experimental kind=hold
-//@ enc=<PriceFeedPrice as FromChainlinkReport>::from_chainlink_report, ruint U192 cmp / pow(10, 8)
-//@ bound=divisor exponent 8: ask in (u128::MAX*10^7, u128::MAX*10^8], bid/price any 192-bit values; results floor(x / 10^8) exactly; unwind 7
-//@ stubs=find_divisor_decimals constant 8 on its interval; ruint::algorithms::div::div specification; Report::verif_new hook
-//@ args=--cbmc-args,--unwindset,memcmp.0:26
-//@ timeout=1800
-#[kani::proof]
-#[kani::stub(gmsol_utils::price::find_divisor_decimals, k8)]
-#[kani::stub(ruint::algorithms::div::div, div_spec)]
-#[kani::unwind(7)]
-fn c28_convert_k08() {
-    convert(8, THREE, false);
-}
-
-//@ prop=C28 tier=experimental kind=hold
-//@ enc=<PriceFeedPrice as FromChainlinkReport>::from_chainlink_report, ruint U192 cmp / pow(10, 9)
-//@ bound=divisor exponent 9: ask in (u128::MAX*10^8, u128::MAX*10^9], bid/price any 192-bit values; results floor(x / 10^9) exactly; unwind 7
-//@ stubs=find_divisor_decimals constant 9 on its interval; ruint::algorithms::div::div specification; Report::verif_new hook
-//@ args=--cbmc-args,--unwindset,memcmp.0:26
-//@ timeout=1800
-#[kani::proof]
-#[kani::stub(gmsol_utils::price::find_divisor_decimals, k9)]
-#[kani::stub(ruint::algorithms::div::div, div_spec)]
-#[kani::unwind(7)]
-fn c28_convert_k09() {
-    convert(9, THREE, false);
-}
-
-//@ prop=C28 tier=experimental kind=hold
-//@ enc=<PriceFeedPrice as FromChainlinkReport>::from_chainlink_report, ruint U192 cmp / pow(10, 10)
-//@ bound=divisor exponent 10: ask in (u128::MAX*10^9, u128::MAX*10^10], bid/price any 192-bit values; results floor(x / 10^10) exactly; unwind 7
-//@ stubs=find_divisor_decimals constant 10 on its interval; ruint::algorithms::div::div specification; Report::verif_new hook
-//@ args=--cbmc-args,--unwindset,memcmp.0:26
-//@ timeout=1800
-#[kani::proof]
-#[kani::stub(gmsol_utils::price::find_divisor_decimals, k10)]
-#[kani::stub(ruint::algorithms::div::div, div_spec)]
-#[kani::unwind(7)]
-fn c28_convert_k10() {
-    convert(10, THREE, false);
-}
-
-//@ prop=C28 tier=experimental kind=hold
-//@ enc=<PriceFeedPrice as FromChainlinkReport>::from_chainlink_report, ruint U192 cmp / pow(10, 11)
-//@ bound=divisor exponent 11: ask in (u128::MAX*10^10, u128::MAX*10^11], bid/price any 192-bit values; results floor(x / 10^11) exactly; unwind 7
-//@ stubs=find_divisor_decimals constant 11 on its interval; ruint::algorithms::div::div specification; Report::verif_new hook
-//@ args=--cbmc-args,--unwindset,memcmp.0:26
-//@ timeout=1800
-#[kani::proof]
-#[kani::stub(gmsol_utils::price::find_divisor_decimals, k11)]
-#[kani::stub(ruint::algorithms::div::div, div_spec)]
-#[kani::unwind(7)]
-fn c28_convert_k11() {
-    convert(11, THREE, false);
-}
-
-//@ prop=C28 tier=experimental kind=hold
-//@ enc=<PriceFeedPrice as FromChainlinkReport>::from_chainlink_report, ruint U192 cmp / pow(10, 12)
-//@ bound=divisor exponent 12: ask in (u128::MAX*10^11, u128::MAX*10^12], bid/price any 192-bit values; results floor(x / 10^12) exactly; unwind 7
-//@ stubs=find_divisor_decimals constant 12 on its interval; ruint::algorithms::div::div specification; Report::verif_new hook
-//@ args=--cbmc-args,--unwindset,memcmp.0:26
-//@ timeout=1800
-#[kani::proof]
-#[kani::stub(gmsol_utils::price::find_divisor_decimals, k12)]
-#[kani::stub(ruint::algorithms::div::div, div_spec)]
-#[kani::unwind(7)]
-fn c28_convert_k12() {
-    convert(12, THREE, false);
-}
-
-//@ prop=C28 tier=experimental kind=hold
-//@ enc=<PriceFeedPrice as FromChainlinkReport>::from_chainlink_report, ruint U192 cmp / pow(10, 13)
-//@ bound=divisor exponent 13: ask in (u128::MAX*10^12, u128::MAX*10^13], bid/price any 192-bit values; results floor(x / 10^13) exactly; unwind 7
-//@ stubs=find_divisor_decimals constant 13 on its interval; ruint::algorithms::div::div specification; Report::verif_new hook
-//@ args=--cbmc-args,--unwindset,memcmp.0:26
-//@ timeout=1800
-#[kani::proof]
-#[kani::stub(gmsol_utils::price::find_divisor_decimals, k13)]
-#[kani::stub(ruint::algorithms::div::div, div_spec)]
-#[kani::unwind(7)]
-fn c28_convert_k13() {
-    convert(13, THREE, false);
-}
-
-//@ prop=C28 tier=experimental kind=hold
-//@ enc=<PriceFeedPrice as FromChainlinkReport>::from_chainlink_report, ruint U192 cmp / pow(10, 14)
-//@ bound=divisor exponent 14: ask in (u128::MAX*10^13, u128::MAX*10^14], bid/price any 192-bit values; results floor(x / 10^14) exactly; unwind 7
-//@ stubs=find_divisor_decimals constant 14 on its interval; ruint::algorithms::div::div specification; Report::verif_new hook
-//@ args=--cbmc-args,--unwindset,memcmp.0:26
-//@ timeout=1800
-#[kani::proof]
-#[kani::stub(gmsol_utils::price::find_divisor_decimals, k14)]
-#[kani::stub(ruint::algorithms::div::div, div_spec)]
-#[kani::unwind(7)]
-fn c28_convert_k14() {
-    convert(14, THREE, false);
-}
-
-//@ prop=C28 tier=experimental kind=hold
-//@ enc=<PriceFeedPrice as FromChainlinkReport>::from_chainlink_report, ruint U192 cmp / pow(10, 15)
-//@ bound=divisor exponent 15: ask in (u128::MAX*10^14, u128::MAX*10^15], bid/price any 192-bit values; results floor(x / 10^15) exactly; unwind 7
-//@ stubs=find_divisor_decimals constant 15 on its interval; ruint::algorithms::div::div specification; Report::verif_new hook
-//@ args=--cbmc-args,--unwindset,memcmp.0:26
-//@ timeout=1800
-#[kani::proof]
-#[kani::stub(gmsol_utils::price::find_divisor_decimals, k15)]
-#[kani::stub(ruint::algorithms::div::div, div_spec)]
-#[kani::unwind(7)]
-fn c28_convert_k15() {
-    convert(15, THREE, false);
-}
-
-//@ prop=C28 tier=experimental kind=hold
-//@ enc=<PriceFeedPrice as FromChainlinkReport>::from_chainlink_report, ruint U192 cmp / pow(10, 16)
-//@ bound=divisor exponent 16: ask in (u128::MAX*10^15, u128::MAX*10^16], bid/price any 192-bit values; results floor(x / 10^16) exactly; unwind 7
-//@ stubs=find_divisor_decimals constant 16 on its interval; ruint::algorithms::div::div specification; Report::verif_new hook
-//@ args=--cbmc-args,--unwindset,memcmp.0:26
-//@ timeout=1800
-#[kani::proof]
-#[kani::stub(gmsol_utils::price::find_divisor_decimals, k16)]
-#[kani::stub(ruint::algorithms::div::div, div_spec)]
-#[kani::unwind(7)]
-fn c28_convert_k16() {
-    convert(16, THREE, false);
-}
-
-//@ prop=C28 tier=experimental kind=hold
-//@ enc=<PriceFeedPrice as FromChainlinkReport>::from_chainlink_report, ruint U192 cmp / pow(10, 17)
-//@ bound=divisor exponent 17: ask in (u128::MAX*10^16, u128::MAX*10^17], bid/price any 192-bit values; results floor(x / 10^17) exactly; unwind 7
-//@ stubs=find_divisor_decimals constant 17 on its interval; ruint::algorithms::div::div specification; Report::verif_new hook
-//@ args=--cbmc-args,--unwindset,memcmp.0:26
-//@ timeout=1800
-#[kani::proof]
-#[kani::stub(gmsol_utils::price::find_divisor_decimals, k17)]
-#[kani::stub(ruint::algorithms::div::div, div_spec)]
-#[kani::unwind(7)]
-fn c28_convert_k17() {
-    convert(17, THREE, false);
 }
